@@ -227,6 +227,52 @@ Section TimeProofs.
   Proof. reflexivity. Qed.
 End TimeProofs.
 
+(* ---- floor characterisations (added round 7): TimeToSlot / SlotToEpoch against the spec's intervals ---- *)
+(* compute_slot_at_time: the slot whose time interval [s*SPS+g, (s+1)*SPS+g) contains t; before genesis: slot 0 *)
+Theorem time_to_slot_floor SPS t g : 0 < SPS ->
+  (t < g -> time_to_slot SPS t g = 0) /\
+  (g <= t -> time_to_slot SPS t g * SPS + g <= t /\ t < (time_to_slot SPS t g + 1) * SPS + g).
+Proof.
+  intros HS. unfold time_to_slot. split; intros H.
+  - destruct (N.ltb_spec t g); [reflexivity|lia].
+  - destruct (N.ltb_spec t g); [lia|].
+    pose proof (N.div_mod (t - g) SPS ltac:(lia)) as Hdm.
+    pose proof (N.mod_lt (t - g) SPS ltac:(lia)) as Hlt.
+    set (q := (t - g) / SPS) in *. set (r := (t - g) mod SPS) in *. nia.
+Qed.
+Theorem time_to_slot_unique SPS t g s : 0 < SPS -> g <= t ->
+  s * SPS + g <= t -> t < (s + 1) * SPS + g -> time_to_slot SPS t g = s.
+Proof.
+  intros HS Hgt Hlo Hhi. unfold time_to_slot. destruct (N.ltb_spec t g); [lia|].
+  symmetry. apply (N.div_unique (t - g) SPS s (t - g - s * SPS)); nia.
+Qed.
+(* the result of TimeToSlot is itself a 64-bit value for 64-bit arguments (nothing wraps) *)
+Theorem time_to_slot_bound SPS t g : 0 < SPS -> t < two64 -> time_to_slot SPS t g < two64.
+Proof.
+  intros HS Ht. unfold time_to_slot. destruct (N.ltb_spec t g); [reflexivity|].
+  apply N.le_lt_trans with (t - g); [|lia]. apply N.div_le_upper_bound; nia.
+Qed.
+(* compute_epoch_at_slot / compute_start_slot_at_epoch: EpochStartSlot is the least slot of the epoch *)
+Theorem slot_to_epoch_floor SPE s : 0 < SPE ->
+  slot_to_epoch SPE s * SPE <= s /\ s < (slot_to_epoch SPE s + 1) * SPE.
+Proof.
+  intros HS. unfold slot_to_epoch.
+  pose proof (N.div_mod s SPE ltac:(lia)) as Hdm. pose proof (N.mod_lt s SPE ltac:(lia)) as Hlt.
+  set (q := s / SPE) in *. set (r := s mod SPE) in *. nia.
+Qed.
+Theorem epoch_start_slot_inverse SPE e s : 0 < SPE -> e < two64 -> SPE < two64 ->
+  epoch_start_slot SPE e = Ok s ->
+  slot_to_epoch SPE s = e /\ (forall s', slot_to_epoch SPE s' = e -> s <= s') /\ s < two64.
+Proof.
+  intros HS He HSPE. rewrite (epoch_start_slot_exact SPE HS e He HSPE). unfold epoch_start_slot_spec.
+  destruct (N.ltb_spec (e * SPE) two64) as [Hr|Hr]; [|discriminate]. intros [= <-].
+  split; [unfold slot_to_epoch; apply N.div_mul; lia|]. split; [|exact Hr].
+  intros s' Hs'. pose proof (slot_to_epoch_floor SPE s' HS) as [Hlo _]. rewrite Hs' in Hlo. exact Hlo.
+Qed.
+(* Slot.Previous / Epoch.Previous: saturating predecessor, never wraps below genesis *)
+Theorem slot_prev_spec s : slot_prev s = N.pred s /\ slot_prev s <= s /\ (0 < s -> slot_prev s + 1 = s).
+Proof. unfold slot_prev. destruct (N.eqb_spec s 0); subst; cbn; lia. Qed.
+
 (* ================= slot span ================= *)
 Theorem check_slot_span_iff mn mx slot span : slot < two64 -> span < two64 ->
   check_slot_span mn mx slot span = check_slot_span_spec mn mx slot span.
